@@ -164,6 +164,9 @@ func (g *gctx) node(depth int) *Node {
 		choices = append(choices, "cap", "cap")
 		if g.f.CapBias {
 			choices = append(choices, "cap", "cap", "capor", "caploop")
+			if g.f.NamedLoops && g.inSub == "" {
+				choices = append(choices, "namednest")
+			}
 		}
 	}
 	if g.f.Subs && g.allowDef && g.inSub == "" {
@@ -254,6 +257,19 @@ func (g *gctx) node(depth int) *Node {
 		l := &Node{K: KLoop, Min: 0, Max: rapid.SampledFrom([]int{-1, 1, 2}).Draw(g.t, "clmax"), Fewest: rapid.IntRange(0, 3).Draw(g.t, "clfew") == 0,
 			Body: &Node{K: KSeq, Kids: []*Node{capn, g.node(depth - 1)}}}
 		return l
+	case "namednest":
+		// an outer named loop whose body is: an inner (often lazy) named loop, an optional
+		// group that binds a capture and may fail afterwards, and something consuming
+		inner := &Node{K: KLoop, Min: 0, Max: rapid.SampledFrom([]int{-1, 2}).Draw(g.t, "nnimax"), Fewest: rapid.IntRange(0, 2).Draw(g.t, "nnifew") != 0, Name: g.name("L")}
+		g.inNamed += 2
+		inner.Body = g.consuming()
+		capn := &Node{K: KCap, S: g.name("v"), Body: g.atom()}
+		opt := &Node{K: KLoop, Min: 0, Max: 1, Body: &Node{K: KSeq, Kids: []*Node{capn, g.atom()}}}
+		tail := g.atom()
+		g.inNamed -= 2
+		outer := &Node{K: KLoop, Min: 0, Max: rapid.SampledFrom([]int{-1, 2, 3}).Draw(g.t, "nnomax"), Fewest: rapid.IntRange(0, 3).Draw(g.t, "nnofew") == 0, Name: g.name("L"),
+			Body: &Node{K: KSeq, Kids: []*Node{inner, opt, tail}}}
+		return outer
 	case "sub":
 		name := g.name("s")
 		n := &Node{K: KSub, S: name}
